@@ -14,5 +14,8 @@ def check(ctx):
     # (C11.a: nothing but the cursor fields survives from one call to the next, so resetting the cursor resets everything a scan
     # depends on — a memo of the scanner, an automaton or a lookahead keyed by a *relative* position is stale after a reset)
     cursor.analyze(ctx, RULES | {"C11.d", "C11.b", "C11.a"})   # advance_to(end of a peeked match): the peeked spans must be the coming ones, also after a reset
+    # (C06.e: offsets count from the start of the caller's input: the iterator is created over that very string)
+    from . import pC06
+    pC06.fresh_iterator_rules(ctx)
     from .common import cache_foundation
     cache_foundation(ctx)
